@@ -44,7 +44,12 @@ def run(ctx):
     r54(ctx, m)
     r55(ctx, m)
     r56(ctx)
+    # the same predicate is evaluated row-wise when row filtering is on (shared with C13)
+    from . import c13
+    c13.r131_132(ctx, m)
     ctx.exhaustive = True
+    from . import callsigs as _cs
+    _cs.general_rules(ctx, 'R5', ['api.filter_row_groups', 'api.filter_out_stats', 'api.filter_out_cats', 'api.filter_val', 'api.filter_in', 'api.filter_not_in', 'api.ParquetFile.to_pandas', 'api.ParquetFile.iter_row_groups', 'api.ParquetFile.count', 'api.sorted_partitioned_columns', 'api.ParquetFile._column_filter'])
 
 
 # ---------------------------------------------------------------------------
@@ -325,6 +330,18 @@ def r54(ctx, m):
         ctx.ob('R5.4', 'api.filter_out_cats:exclusion-only-through-degenerate-interval', ok,
                'return True under `%s`' % (norm(inner) if inner is not None else '-'), m.loc(r))
     ctx.floor('R5.4', 'excluding returns in filter_out_cats', len(rets), 1)
+    strl = [s for s in iter_child_stmts(g.body) if isinstance(s, ast.If) and 'isinstance(val, str)' in norm(s.test)]
+    ok = len(strl) == 1
+    if ok:
+        kinds = set()
+        for c in ast.walk(strl[0].test):
+            if isinstance(c, ast.Call) and callee(c) == 'isinstance' and norm(c.args[0]) == 'val':
+                t = c.args[1]
+                kinds |= {norm(e) for e in (t.elts if isinstance(t, ast.Tuple) else [t])}
+        ok = {'str', 'tuple', 'list'} <= kinds
+    ctx.ob('R5.4', 'api.filter_out_cats:string-constants-recognised-as-scalar-list-and-tuple', ok,
+           'string constants (alone, in a list or in a tuple) are compared with the raw directory text; other container '
+           'kinds fall through to numeric typing of the directory text', m.loc(g))
     appf = [s for s in iter_child_stmts(g.body) if isinstance(s, ast.Assign) and norm(s.targets[0]) == 'app_filters']
     ctx.ob('R5.4', 'api.filter_out_cats:conditions-selected-by-partition-name',
            len(appf) == 1 and norm(appf[0].value) == '[f[1:] for f in filters if f[0] == cat]', '', m.loc(g))
